@@ -30,7 +30,7 @@ def cases(tier, sd):
     n = 60 if tier == "quick" else 400
     out = []
     for i in range(n):
-        route = ['freeze_data', 'load_data', 'over_time'][i % 3]
+        route = ['freeze_data', 'load_data', 'over_time', 'peek_then_freeze'][i % 4]
         style = ['tensor', 'components', 'fluid0'][int(rng.integers(3))]
         if style == 'fluid0':
             m = dict(family=S.PulledBack.name, seed=int(rng.integers(1 << 20)),
@@ -46,6 +46,8 @@ def cases(tier, sd):
             imp = {k: float(rng.choice([0.0, 1e-9, 1.0, 1e9]))
                    for k in rng.choice(ks, 3, replace=False)}
         out.append(dict(member=m, style=style, route=route, shape=shape,
+                        extra_frozen=bool(rng.random() < 0.35),
+                        custom_field=bool(rng.random() < 0.5),
                         order=int(rng.choice([2, 4])), Lambda=0.0,
                         cache=dict(every=int(rng.choice([1, 1, 2, 3, 5, 20])),
                                    gb=float(scal * 10 ** rng.uniform(-2.0, 3.0)),
@@ -118,6 +120,10 @@ def run_case(spec):
                                        {"err": repr(e)[:300]}))
             states = list(probe.states.values())
         else:
+            if spec.get('extra_frozen') and ex is not None and spec['style'] != 'fluid0':
+                # derived tensors supplied by the user as inputs are frozen too
+                for k in ('st_Riemann_down4', 's_Riemann_down3', 'gdown4'):
+                    inputs[k] = np.array(ex[k], copy=True)
             with common.Quiet():
                 rel = A.AurelCore(fd, **kw)
                 if spec['route'] == 'load_data':
@@ -126,16 +132,41 @@ def run_case(spec):
                 else:
                     for k, v in inputs.items():
                         rel.data[k] = v
+                    if spec['route'] == 'peek_then_freeze':
+                        # look at a few things before freezing (freeze_data
+                        # freezes whatever is in data at that moment); nothing
+                        # is protected yet, so no clean-up pressure while peeking
+                        rel.clear_cache_every_nbr_calc = 10 ** 9
+                        rel.memory_threshold_inGB = 1e9
+                        for k in ('gammadet', 'alpha', 'Ktrace', list(inputs)[0]):
+                            rel[k]
+                        rel.clear_cache_every_nbr_calc = spec['cache']['every']
+                        rel.memory_threshold_inGB = spec['cache']['gb']
                     rel.freeze_data()
             if spec['cache'].get('importance'):
                 for k, v in spec['cache']['importance'].items():
-                    if k not in inputs:
+                    if k not in rel.data:
                         rel.var_importance[k] = v
+            if spec.get('custom_field'):
+                # a user-defined field stored next to the catalogue quantities
+                rel.data['my_field'] = np.full(n, 3.25)
+                ops = ops + [('key', 'my_field')]
+                for _ in range(3):
+                    ops.insert(int(rng.integers(len(ops))), ('key', 'my_field'))
             for op in ops:
                 status, val = H.do_op(rel, op)
-                if status == 'raise' and isinstance(val, RecursionError):
-                    violations.append(("request raises RecursionError", {"op": op[1]}))
+                if status == 'raise' and isinstance(val, (RecursionError, KeyError, UnboundLocalError)):
+                    violations.append((f"request raises {type(val).__name__}", {"op": op[1],
+                                       "err": repr(val)[:120]}))
             states = [probe.state(rel)]
+            # at the end: every frozen input is still there, same object, same bytes
+            st0 = states[0]
+            for k, v in inputs.items():
+                if k not in rel.data or rel.data[k] is not v:
+                    violations.append(("I1 frozen input missing or replaced at the end", {"key": k}))
+                elif isinstance(v, np.ndarray) and k in st0.frozen and st0.frozen[k][1] is not None \
+                        and monitor.digest(v) != st0.frozen[k][1]:
+                    violations.append(("I1 frozen input altered", {"key": k}))
         for st in states:
             for name, det in st.violations:
                 violations.append((name, det))
